@@ -126,7 +126,7 @@ func runBuilt(tools *pipeline.Tools, r *Recorder, rp *Replay, c *pipeline.Case) 
 	}
 	b, rerr := os.ReadFile(out)
 	if rerr != nil {
-		return "", pipeline.Infra("case binary produced no result:\n%s", lastLines(log, 25))
+		return "", pipeline.Infra("case binary produced no result:\n%s\n[...]\n%s", firstLines(log, 12), lastLines(log, 12))
 	}
 	var res rt.Result
 	if err := json.Unmarshal(b, &res); err != nil {
@@ -292,4 +292,12 @@ func init() {
 	simpleInner("C09", 200, nil)
 	simpleInner("C19", 500, func(o *gen.Opts, k *gen.KOpts) { o.ScalarDense = true })
 	simpleInner("C20", 300, nil)
+}
+
+func firstLines(s string, n int) string {
+	l := strings.Split(s, "\n")
+	if len(l) > n {
+		l = l[:n]
+	}
+	return strings.Join(l, "\n")
 }
